@@ -1065,14 +1065,19 @@ def split_chained_assigns(fnode, base_names, stats):
           # a name the reference knows, chained with an attribute: the same split (the attribute is stored, the name reads it back)
           names = [t for t in st.targets if isinstance(t, ast.Name)]
           others = [t for t in st.targets if not isinstance(t, ast.Name)]
-        if len(names) == 1 and len(others) == 1 and _is_pure_chain(others[0]):
+        if len(names) == 1 and len(others) == 1 and (_is_pure_chain(others[0]) or (isinstance(others[0], ast.Subscript) and _is_pure(others[0].value) and _is_pure(others[0].slice))):
           a, x = others[0], names[0]
           load = copy.deepcopy(a)
           for n in ast.walk(load):
             if hasattr(n, 'ctx'):
               n.ctx = ast.Load()
-          s1 = ast.copy_location(ast.Assign(targets=[a], value=st.value), st)
-          s2 = ast.copy_location(ast.Assign(targets=[x], value=load), st)
+          if isinstance(a, ast.Subscript):
+            # a container slot: the name takes the value, the slot is stored from the name (nothing is read back from the container)
+            s1 = ast.copy_location(ast.Assign(targets=[x], value=st.value), st)
+            s2 = ast.copy_location(ast.Assign(targets=[a], value=ast.Name(id=x.id, ctx=ast.Load())), st)
+          else:
+            s1 = ast.copy_location(ast.Assign(targets=[a], value=st.value), st)
+            s2 = ast.copy_location(ast.Assign(targets=[x], value=load), st)
           b[i:i + 1] = [s1, s2]
           stats['chained'] = stats.get('chained', 0) + 1
           i += 2
@@ -1929,6 +1934,43 @@ def inline_direct_nested_calls(fnode, bsrc, stats):
       stats['direct_nested'] = stats.get('direct_nested', 0) + 1
 
 
+def restore_guarded_setdefault(fnode, bsrc, stats):
+  """`if K in D: return` ... `x = D.setdefault(K, V)` (nothing in between touches D or can yield): the key is known to be absent, so this is
+  `x = V; D[K] = x` -- when the reference function has no setdefault."""
+  if 'setdefault' in ast.unparse(bsrc):
+    return
+  for b in _blocks(fnode):
+    for j, st in enumerate(b):
+      if not (isinstance(st, ast.Assign) and len(st.targets) == 1 and isinstance(st.targets[0], ast.Name) and isinstance(st.value, ast.Call)
+              and isinstance(st.value.func, ast.Attribute) and st.value.func.attr == 'setdefault' and len(st.value.args) == 2 and not st.value.keywords):
+        continue
+      D, K, V = st.value.func.value, st.value.args[0], st.value.args[1]
+      if not (_is_pure(D) and _is_pure(K)):
+        continue
+      dtxt, ktxt = ast.unparse(D), ast.unparse(K)
+      guard = None
+      for i in range(j - 1, -1, -1):
+        g = b[i]
+        if (isinstance(g, ast.If) and not g.orelse and g.body and isinstance(g.body[-1], (ast.Return, ast.Raise, ast.Continue, ast.Break))
+            and isinstance(g.test, ast.Compare) and len(g.test.ops) == 1 and isinstance(g.test.ops[0], ast.In)
+            and ast.unparse(g.test.left) == ktxt and ast.unparse(g.test.comparators[0]) == dtxt):
+          guard = i
+          break
+        txt = ast.unparse(g)
+        if dtxt in txt or any(isinstance(c, ast.Call) and _may_rebind_self(c) for c in ast.walk(g)) or \
+           any(isinstance(x, ast.Name) and isinstance(x.ctx, ast.Store) and x.id in ktxt.split('.') for x in ast.walk(g)):
+          break
+      if guard is None:
+        continue
+      x = st.targets[0]
+      s1 = ast.copy_location(ast.Assign(targets=[x], value=V), st)
+      s2 = ast.copy_location(ast.Assign(targets=[ast.Subscript(value=D, slice=K, ctx=ast.Store())], value=ast.Name(id=x.id, ctx=ast.Load())), st)
+      b[j:j + 1] = [s1, s2]
+      stats['setdefaults'] = stats.get('setdefaults', 0) + 1
+      ast.fix_missing_locations(fnode)
+      return
+
+
 def raise_append_loops(fnode, bsrc, stats):
   """`acc = []` directly followed by `for T in IT: [if C:] acc.append(E)` (nothing else in the loop), in a function whose reference version has
   comprehensions and no such accumulation loop: the comprehension `acc = [E for T in IT if C]` again (the same calls in the same order; the list
@@ -2299,6 +2341,14 @@ def ifexp_texts(fnode):
 def lower_new_ifexps(fnode, base_ifexps, stats):
   """x = A if c else B  /  return A if c else B  that the reference tree does not have: lowered to an if statement
   so that path rules see the condition."""
+  for _round in range(4):        # the new branches are blocks of their own: nested conditional expressions are lowered in the next round
+    before = stats.get('ifexps', 0)
+    _lower_new_ifexps_once(fnode, base_ifexps, stats)
+    if stats.get('ifexps', 0) == before:
+      break
+
+
+def _lower_new_ifexps_once(fnode, base_ifexps, stats):
   for b in _blocks(fnode):
     i = 0
     while i < len(b):
@@ -2387,6 +2437,7 @@ def rename_function(fnode, rel, qualname, base_funcs, stats):
         keywords_to_positional(fnode, bsrc, stats)
         inline_direct_nested_calls(fnode, bsrc, stats)
         raise_append_loops(fnode, bsrc, stats)
+        restore_guarded_setdefault(fnode, bsrc, stats)
         restore_guard_arms(fnode, bsrc, stats)
         split_isinstance_handlers(fnode, bsrc, stats)
         restore_pop_default(fnode, bsrc, stats)
